@@ -241,11 +241,13 @@ Build(s, c, t, fc, ac, epx) ==
       res == [mods |-> IF failed THEN {<<p, "bad", Used(p).c>> : p \in parseErrs}
                                        \cup {<<p, "warn", pkgId>> : p \in {q \in Loaded \cap {"cjs"} : Used(q).o.mt = "module"}}
                        ELSE {Eff(p) : p \in Loaded \ Dropped},
+              \* the metafile (when requested) lists every input, also those dropped by tree shaking
+              inputs |-> IF failed THEN {} ELSE {<<p, Used(p).c>> : p \in Loaded},
               diag |-> diag]
       \* --- watch predicates (fs_real.go) and observations
       Pres(dir, name, b) == [t |-> "present", p |-> dir, n |-> name, b |-> b, c |-> "", mk |-> NoKey]
       DirR(p, b) == [t |-> "dirreadable", p |-> p, n |-> "", b |-> b, c |-> "", mk |-> NoKey]
-      FileP(p) == IF mkT[p].u THEN [t |-> "modkey", p |-> p, n |-> "", b |-> TRUE, c |-> "", mk |-> mkT[p]]
+      FileP(p) == IF mkT[p].u THEN [t |-> "modkey", p |-> p, n |-> "", b |-> TRUE, c |-> fn(p).c, mk |-> mkT[p]]
                   ELSE [t |-> "content", p |-> p, n |-> "", b |-> TRUE, c |-> fn(p).c, mk |-> NoKey]
       Kind(p) == [t |-> "kind", p |-> p, n |-> "", b |-> TRUE,
                   c |-> KindNow(s, c, p), mk |-> NoKey]
@@ -300,8 +302,13 @@ Holds(o, s, c, t) ==   \* does the recorded answer still hold?
   CASE o.t = "present"     -> DirReadable(s, o.p) /\ o.b = PresentNow(s, c, o.p, o.n)
     [] o.t = "dirreadable" -> o.b = (s[o.p].k = "dir")
     [] o.t = "modkey"      -> MK(FN(s, c, o.p), t).u /\ MK(FN(s, c, o.p), t) = o.mk
-    [] o.t = "content"     -> FN(s, c, o.p).isfile /\ FN(s, c, o.p).c = o.c
+    \* (reading follows a symbolic link: a link to a file with the same text satisfies the predicate)
+    [] o.t = "content"     -> IF o.p = "dep" /\ s["dep"].k = "link" THEN o.c = s["dep"].c
+                              ELSE FN(s, c, o.p).isfile /\ FN(s, c, o.p).c = o.c
     [] o.t = "kind"        -> o.c = KindNow(s, c, o.p)
+\* the same predicate had the build run while the file's mod key was still unusable
+\* (fs_real.go then compares contents instead of mod keys)
+HoldsUnsettled(o, s, c, t) == IF o.t = "modkey" THEN Holds([o EXCEPT !.t = "content"], s, c, t) ELSE Holds(o, s, c, t)
 
 ----------------------------------------------------------------------------
 (* The edit alphabet                                                       *)
@@ -393,6 +400,7 @@ InitSrcI == [p \in SrcPaths |->
     [] OTHER       -> Missing]
 
 NoFlags == [stale |-> FALSE, astBad |-> {}, fsBad |-> {}, changed |-> FALSE, missed |-> FALSE, dirty |-> FALSE, uncovered |-> {},
+            missedU |-> FALSE, uncoveredU |-> {},
             wellformed |-> TRUE]
 
 Init ==
@@ -410,7 +418,8 @@ Init ==
 StepExpect(b, fresh) ==
   [changed |-> last.changed, dirty |-> last.dirty, missed |-> last.missed,
    stale |-> b.res # fresh, astBad |-> b.astBad, badFields |-> b.badFields, epStale |-> (b.res.diag # fresh.diag),
-   uncovered |-> {o.t \o ":" \o o.p : o \in last.uncovered}, fsHit |-> b.fsHit, astHit |-> b.astHit, loaded |-> b.loaded,
+   uncovered |-> {o.t \o ":" \o o.p : o \in last.uncovered},
+   missedU |-> last.missedU, uncoveredU |-> {o.t \o ":" \o o.p : o \in {x \in last.uncoveredU : x.t = "kind"}}, fsHit |-> b.fsHit, astHit |-> b.astHit, loaded |-> b.loaded,
    diag |-> fresh.diag]
 
 DoBuild ==
@@ -443,10 +452,13 @@ DoEdit ==
            after == Fresh(s2, c2, t2)
            dirty == {o \in watch : ~Holds(o, s2, c2, t2)}
            moved == {o \in obs : ~Holds(o, s2, c2, t2)}
+           dirtyU == {o \in watch : ~HoldsUnsettled(o, s2, c2, t2)}
        IN /\ src' = s2 /\ cfg' = c2 /\ now' = t2 /\ ino' = ino + 2
           /\ hist' = Append(hist, e) /\ fres' = after /\ hh' = (hh * 131 + Idx(j)) % 1000003
           /\ last' = [last EXCEPT !.changed = (before # after), !.missed = (before # after /\ dirty = {}), !.dirty = (dirty # {}),
-                                  !.uncovered = IF dirty = {} THEN moved ELSE {}]
+                                  !.uncovered = IF dirty = {} THEN moved ELSE {},
+                                  !.missedU = (before # after /\ dirtyU = {}),
+                                  !.uncoveredU = IF dirtyU = {} THEN moved ELSE {}]
   /\ phase' = "build"
   /\ UNCHANGED <<fsc, astc, ep, watch, obs, exp>>
 
